@@ -10,7 +10,7 @@
           reset   OPUS_RESET_STATE at op `cut` vs. a newly initialised object with every successful
                   setter of the history replayed (force_channels, which the encoder itself may change,
                   is copied through its getter)
-          determ  the same history twice: heap filled 0xA5 / stack dirtied 0xA5 / no other objects, vs.
+          determ  the same history twice: heap and stack zero-filled / no other objects, vs.
                   heap 0x5A / stack 0x5A / decoy objects alive and used between the calls
    kind:  enc dec msenc msdec projenc projdec rp
 
@@ -637,10 +637,10 @@ static int run_case(int mode, Case *c)
       obj_free(&a); obj_free(&b);
    } else {                               /* determinism */
       vrng dr; OpusEncoder *de; OpusDecoder *dd; void *junk[8]; int j;
-      g_fill = 0xA5; dirty_stack(0xA5); a = obj_new(c);
-      for (i = 0; i < c->nops; i++) { dirty_stack(0xA5); run_op(c, &a, &c->ops[i], &g_ra[i]); }
+      g_fill = 0x00; dirty_stack(0x00); a = obj_new(c);            /* run 1: zero pages, as a fresh process sees them */
+      for (i = 0; i < c->nops; i++) { dirty_stack(0x00); run_op(c, &a, &c->ops[i], &g_ra[i]); }
       obj_free(&a);
-      g_fill = 0x5A; dr.s = 12345;
+      g_fill = 0x5A; dr.s = 12345;                                 /* run 2: dirty heap and stack, other objects alive */
       for (j = 0; j < 8; j++) junk[j] = malloc(1000 + 7919 * j);
       de = opus_encoder_create(48000, 2, OPUS_APPLICATION_AUDIO, &err); dd = opus_decoder_create(48000, 2, &err);
       for (j = 0; j < 8; j += 2) free(junk[j]);
